@@ -225,3 +225,30 @@ def guard_shape(FX, body, exp):
     if not saw_delivery:
         return dict(res, ok=False, why_key="unreachable", why="no path reaches the delivery site")
     return dict(res, ok=True, detail="delivery=%s level=%s callsite=%s" % (what, exp["level"], cs_static.rsplit("::", 2)[1]))
+
+
+def valueset_arms():
+    """Lines of tracing/src/macros.rs inside `macro_rules! valueset` that build a (key, value) pair: one per field-form arm."""
+    import os
+    p = os.path.join(_facts.REPO, "tracing/src/macros.rs")
+    out = []
+    cur = None
+    with open(p) as fh:
+        for i, line in enumerate(fh, 1):
+            m = re.match(r"\s*macro_rules!\s+(\w+)", line)
+            if m:
+                cur = m.group(1)
+            if cur == "valueset" and "(&$next," in line and not line.lstrip().startswith("//"):
+                out.append(i)
+    return out
+
+
+def valueset_lines_used(FX, body):
+    """def-site lines (in macros.rs) of the (key, value) tuples built in this fixture function"""
+    out = set()
+    for i, j, s in body.stmts():
+        rv = s.get("rv", {})
+        sp = s.get("sp", {})
+        if "agg" in rv and rv["agg"].get("tuple") and sp.get("exp") and sp.get("f", "").endswith("tracing/src/macros.rs"):
+            out.add(sp["l"])
+    return out
